@@ -178,4 +178,50 @@ mod verif_kani_numbers {
         kani::cover!(r.is_err());
         core::mem::forget(r);
     }
+
+    // ------------------------------------------------------------------ K10c: radix conversion closures
+    // The closures passed to `.try_map(` after hex_int / oct_int / bin_int in `integer`, extracted
+    // verbatim on every run into $TOML_VERIF_GEN/k10_int_closures.rs (no winnow in the loop):
+    // Ok(v) <=> the mathematical value fits in i64, and then v is that value.
+    include!(concat!(env!("TOML_VERIF_GEN"), "/k10_int_closures.rs"));
+
+    fn conv_check<const N: usize>(conv: impl Fn(&str) -> Result<i64, core::num::ParseIntError>, radix: u32) {
+        let digits: [u8; N] = kani::any();
+        let mut value: u128 = 0;
+        let mut i = 0;
+        while i < N {
+            let d = match digits[i] {
+                b'0'..=b'9' => (digits[i] - b'0') as u32,
+                b'a'..=b'f' => (digits[i] - b'a') as u32 + 10,
+                b'A'..=b'F' => (digits[i] - b'A') as u32 + 10,
+                _ => 99,
+            };
+            kani::assume(d < radix);
+            value = value * radix as u128 + d as u128;
+            i += 1;
+        }
+        let text = match core::str::from_utf8(&digits) {
+            Ok(t) => t,
+            Err(_) => return,
+        };
+        let r = conv(text);
+        match &r {
+            Ok(v) => {
+                assert!(value <= i64::MAX as u128, "an integer literal beyond i64 is accepted (wrapped or saturated)");
+                assert!(*v as i128 == value as i128, "integer literal decodes to the wrong value");
+            }
+            Err(_) => assert!(value > i64::MAX as u128, "an integer literal within i64 is rejected"),
+        }
+        kani::cover!(r.is_ok());
+        kani::cover!(r.is_err());
+        core::mem::forget(r);
+    }
+
+    #[kani::proof]
+    #[kani::unwind(20)]
+    fn k10c_hex16() { conv_check::<16>(k10_hex_int_conv(), 16); }
+
+    #[kani::proof]
+    #[kani::unwind(26)]
+    fn k10c_oct22() { conv_check::<22>(k10_oct_int_conv(), 8); }
 }
